@@ -714,12 +714,13 @@ theorem presolve_transparent_full {P : Csc α} {q : Array α} {A : Csc α} {b : 
 
 /-- [S] the length invariant on its own: after `DefaultSolver::new` and any `solve()` that
 returns, `variables.x/s/z` have the lengths `n, m, m` of the internal problem, and with presolve
-off `m` is the number of rows of the user's `A`. -/
+off `m` is the number of rows of the user's `A`; the internal data is untouched except for the two norm
+caches, which `solve()` fills (`fillNorms`: `get_normq(); get_normb()` of `DefaultInfo::update`). -/
 theorem variables_keep_internal_lengths {P : Csc α} {q : Array α} {A : Csc α} {b : Array α}
     {cones : List (ConeT α)} {st0 st : Settings α} {perm : Array Nat} {S : Solver α}
     {r : SolveResult α} (hnew : Solver.new P q A b cones st0 perm = .ok S)
     (hr : S.solve st = .ok r) :
-    r.S.st.data = S.st.data ∧ r.S.st.variables.x.size = S.st.data.n
+    fillNorms S.st.data = .ok r.S.st.data ∧ r.S.st.variables.x.size = S.st.data.n
       ∧ r.S.st.variables.s.size = S.st.data.m ∧ r.S.st.variables.z.size = S.st.data.m
       ∧ (st0.presolveEnable = false → S.st.data.m = A.m) :=
   let ⟨a, b, c, d⟩ := new_solve_variables_sized hnew hr
